@@ -107,7 +107,9 @@ def run(ctx):
         nots = sorted(set(c for op, c in pc if op == "Not"))
         eqs = sorted(set(c for op, c in pc if op in ("Eq", "Ne")))
         strip_ok = (0x7FFF in ands) or (0x8000 in nots)
-        if ors == [0x8000] and 0x8000 in ands and 0x8000 in eqs and strip_ok:
+        # the test of the bit: `x & 0x8000 == 0x8000` or `x & 0x8000 != 0` (either polarity of the comparison)
+        test_ok = 0x8000 in ands and (("Eq", 0x8000) in pc or ("Ne", 0) in pc) and ("Ne", 0x8000) not in pc and ("Eq", 0) not in pc
+        if ors == [0x8000] and test_ok and strip_ok:
             report.nontriv("flagbit:" + tn)
             report.sample({"type": tn, "written": "class | 0x8000", "tested": "class & 0x8000 == 0x8000", "stripped": "class & 0x7FFF"})
         else:
